@@ -47,6 +47,11 @@ impl RepetitionTable {
         false
     }
 
+    /// Forgets all recorded positions
+    pub fn clear(&mut self) {
+        self.hashes.clear();
+    }
+
     /// Gets the number of positions in history
     #[allow(dead_code)]
     pub fn len(&self) -> usize {
